@@ -34,6 +34,10 @@ func prysmVerify(pub kyber.Point, msg, sig []byte) bool {
 	if err != nil {
 		return false
 	}
+	return prysmVerifyBytes(pk, msg, sig)
+}
+
+func prysmVerifyBytes(pk, msg, sig []byte) bool {
 	ppk, err := prysmBLS.PublicKeyFromBytes(pk)
 	if err != nil {
 		return false
